@@ -414,6 +414,49 @@ pub fn any_elem(r: &mut Rng, tscale: f64) -> (Transform, String) {
     }
 }
 
+/// the chains of the transform properties (C06, C16): mostly `any_chain`, now and then a chain that magnifies (or shrinks) strongly —
+/// a translation followed by three to five scalings in the same direction (factors at the ends of the admitted range), with
+/// an occasional rotation in between: the transformed direction of a ray is then far from unit length
+pub fn transform_chain(r: &mut Rng) -> (Transform, String) {
+    if r.below(12) != 0 {
+        return any_chain(r, 6, 1e3);
+    }
+    let up = r.bool();
+    let k = 3 + r.below(3);
+    let mut t = Transform::new();
+    let mut parts: Vec<String> = vec![];
+    let (x, y, z) = (r.nice(1e3), r.nice(1e3), r.nice(1e3));
+    t *= Transform::translate(x, y, z);
+    parts.push(format!("T {} {} {}", hx(x), hx(y), hx(z)));
+    for i in 0..k {
+        let f = |r: &mut Rng| -> Float {
+            let m = if up { r.pick(&[10., 10., 8., 5.]) } else { r.pick(&[0.1, 0.1, 0.125, 0.2]) } as Float;
+            if r.below(6) == 0 {
+                -m
+            } else {
+                m
+            }
+        };
+        let (sx, sy, sz) = if r.bool() {
+            let s = f(r);
+            (s, s, s)
+        } else {
+            (f(r), f(r), f(r))
+        };
+        t *= Transform::scale(sx, sy, sz);
+        parts.push(format!("S {} {} {}", hx(sx), hx(sy), hx(sz)));
+        if i == 1 && parts.len() < 6 && r.bool() {
+            let d = any_angle(r);
+            t *= Transform::rotate_y(d);
+            parts.push(format!("RY {}", hx(d)));
+        }
+        if parts.len() >= 6 {
+            break;
+        }
+    }
+    (t, format!("{} {}", parts.len(), parts.join(" ")))
+}
+
 /// a chain of 0..=maxlen elementary transforms composed with `*=`
 pub fn any_chain(r: &mut Rng, maxlen: usize, tscale: f64) -> (Transform, String) {
     let n = r.below(maxlen + 1);
@@ -466,7 +509,7 @@ pub fn c06(r: &mut Rng, out: &mut Out, n: usize) {
         out.case(&format!("tr.chain {}", s), &format!("{} {}", hm(&m), hm(&i)));
     }
     for i in 0..n {
-        let (t, s) = any_chain(r, 6, 1e3);
+        let (t, s) = transform_chain(r);
         match i % 8 {
             7 => {
                 // a surface frame (point, two tangents, their normal) carried through IntersectionInfo::transform
@@ -541,7 +584,7 @@ pub fn c06(r: &mut Rng, out: &mut Out, n: usize) {
 
 pub fn c16(r: &mut Rng, out: &mut Out, n: usize) {
     for i in 0..n {
-        let (t, s) = any_chain(r, 6, 1e3);
+        let (t, s) = transform_chain(r);
         let (me, mi) = t.verif_elements();
         let mats = format!("{} {}", hm(&me), hm(&mi));
         let big = r.pick(&[1., 10., 1e3, 1e6]);
